@@ -204,6 +204,96 @@ def run_cases(ctx, rng, n_cases, sl, cases=None):
             sl.sample(desc)
 
 
+def _shared_worker(seed):
+    """two seeded trees that share ONE NBC generator object (a user reusing a configured mechanism), stepped
+    side by side: whatever the generator answers for a deme must be the clustering of THAT deme's current
+    population — compared with the definition (`reference`) on every call"""
+    import pyhms.tree as T
+    from pyhms.config import TreeConfig
+
+    from .. import runs as R2
+    from ..common import RunTimeout, is_env_crash, run_limit
+
+    rng = np.random.default_rng([seed, 77])
+    phi = float(rng.choice([1.0, 2.0, 3.0]))
+    tf = float(rng.choice([0.7, 1.0]))
+    sprout = {"kind": "custom", "generator": "nbc", "gen_dist_factor": phi, "trunc_factor": tf, "deme_filters": ["demelimit"], "far_enough": 0.1,
+              "fil_dist_factor": 1.0, "norm_ord": 2, "check_only_active": False, "deme_limit": 2, "tree_filters": ["levellimit"], "level_limit": 4}
+    eng = {0: ["sea", "de", "shade", "ga"], 1: ["sea", "de", "cma"], 2: ["sea", "de"]}
+    specs = [R2.rand_spec(rng, nlev=int(rng.choice([2, 2, 3])), engines=eng, sprout=sprout, objective=str(rng.choice(["four", "sphere"])),
+                          gsc={"kind": "MetaepochLimit", "limit": 6}, hibernation=bool(rng.random() < 0.5), cutoff=None) for _ in range(2)]
+    found = []
+    calls = [0]
+
+    class Checking:
+        def __init__(self, inner):
+            self.inner = inner
+
+        def __call__(self, tree):
+            out = self.inner(tree)
+            for deme, dc in out.items():
+                pop = deme.current_population
+                X = np.array([i.genome for i in pop], dtype=float)
+                f = np.array([i.fitness for i in pop], dtype=float)
+                if len({tuple(x) for x in X.tolist()}) < len(X) or not np.all(np.isfinite(f)):
+                    continue
+                ref, border = reference(X, f, deme._problem.maximize, phi, tf)
+                if ref is None or border:
+                    continue
+                calls[0] += 1
+                want = sorted(tuple(X[i].tolist()) for i in ref)
+                got = sorted(tuple(float(t) for t in ind.genome) for ind in dc.individuals)
+                if got != want and not found:
+                    found.append(f"deme {deme.id} (metaepoch {tree.metaepoch_count}): the generator answered {len(got)} individuals {got[:2]}… but the clustering of its current population has the seeds {want[:2]}… ({len(want)})")
+            return out
+
+    try:
+        with run_limit():
+            trees = []
+            shared = None
+            for spec in specs:
+                o = R2.build(spec, None, plain="callable")
+                if shared is None:
+                    shared = o["sm"]
+                    shared.candidates_generator = Checking(shared.candidates_generator)
+                opts = {"random_seed": spec["seed"], "hibernation": spec["hibernation"]}
+                trees.append(T.DemeTree(TreeConfig(o["levels"], o["gsc"], shared, options=opts, config_class_to_deme_class=o["custom"])))
+            for _ in range(6):
+                for t in trees:
+                    if not t._gsc(t):
+                        t.run_step()
+    except RunTimeout as e:
+        return {"status": "crash", "detail": f"run did not terminate: {e}"}
+    except Exception as e:  # noqa: BLE001
+        return {"status": "env" if is_env_crash(e) else "crash", "detail": f"{type(e).__name__}: {e}"}
+    return {"status": "ok", "found": found, "calls": calls[0]}
+
+
+def shared_generator(ctx, n, salt):
+    from ..common import pmap
+
+    sl = Slice("one NBC generator object serving two trees stepped side by side (every answer = clustering of that deme's current population)")
+    n = ctx.boost(n) if hasattr(ctx, "boost") else n
+    base = int(ctx.rng(salt).integers(1 << 30))
+    seeds = [base + i for i in range(n)]
+    for sd, r in zip(seeds, pmap(_shared_worker, seeds, chunksize=2)):
+        if r["status"] == "env":
+            sl.skipped += 1
+            continue
+        if r["status"] == "crash":
+            sl.violations.append({"signature": "C15/run-crashed", "detail": r["detail"], "replay": {"seed": sd}})
+            continue
+        sl.cases += 1
+        if r["calls"] >= 4:
+            sl.nontrivial.add(sd)
+        sl.count("generator-answers-checked", r["calls"])
+        for m in r["found"]:
+            sl.violations.append({"signature": "C15/answer-for-another-population", "detail": m, "replay": {"seed": sd}})
+    if seeds:
+        sl.sample({"seed": seeds[0]})
+    return sl
+
+
 def run(ctx):
     sl = Slice("NearestBetterClustering-vs-NBC.cluster/NBC.spec")
     run_cases(ctx, ctx.rng(1), ctx.size(400, 6000), sl)
@@ -217,8 +307,8 @@ def run(ctx):
             if not chunk:
                 break
             run_cases(ctx, None, 0, ex, cases=chunk)
-        return [sl, ex]
-    return [sl]
+        return [sl, ex, shared_generator(ctx, 300, 3)]
+    return [sl, shared_generator(ctx, 16, 3)]
 
 
 def search(ctx, broken):
